@@ -94,6 +94,23 @@ pub fn run(ctx: &Ctx) -> i32 {
         st.count("cluster_and_blank_repeat_cases");
         check_case(ctx, st, &det[i % det.len()], Settings::new(REP | det_settings[i / det.len()]));
     });
+    // medium-sized inputs: many / long test cases, many distinct symbols, long repeats, deep prefix chains
+    {
+        let n = if ctx.thorough { 6000 } else { 400 };
+        let names = ["ab", "abc", "mixed", "meta", "clusters"];
+        let als: Vec<Vec<String>> = names.iter().map(|a| gen::alphabet(a)).collect();
+        par_for(&ctx.run, n, |i, st| {
+            let mut rng = Rng::new(seed, 0x51_0000 + i as u64);
+            let tcs = gen::medium_family(&mut rng, &als[i % als.len()]);
+            let tcs: Vec<String> = tcs.into_iter().filter(|t| !t.is_empty()).collect();
+            if tcs.is_empty() {
+                return;
+            }
+            st.count("medium_sized_inputs");
+            let (m, l) = gen::thresholds(&mut rng);
+            check_case(ctx, st, &tcs, Settings::with(REP | if i % 4 == 0 { CAP | VERB } else { 0 }, m, l));
+        });
+    }
     // random repeat-rich families x other settings
     let n = if ctx.thorough { 300_000 } else { 12_000 };
     let names = ["ab", "abc", "meta", "graph", "astral", "classes", "case", "ws", "clusters"];
